@@ -30,6 +30,10 @@ FAMILY = {
     "C10": "Levels",
     "C11": "Shape",
 }
+# further model families checked under a property: (family, replay key)
+EXTRA_FAMILIES = {"C07": [("Mirror", "Mirror")]}
+
+NEGS = {"C07": ["MC_Mirror_neg_halo"], "C02": ["MC_Recip_neg_halo"], "C03": ["MC_Conserve_neg_halo"], "C10": ["MC_Levels_neg_cursor", "MC_Levels_neg_flat"], "C11": ["MC_Shape_neg_sym"]}
 
 TOL = {"double": 1e-10, "single": 2e-4}
 
@@ -260,6 +264,18 @@ def replay_linear(chk, rs, c, variants):
             if np.max(np.abs(p3 - (a * p1 + b * p2))) > TOL[prec] * sc_p:
                 _viol(chk, rs, c, "superposition", "conc of (a*q1+b*q2, a*c1+b*c2) differs from the combination by %.3e relative" % (np.max(np.abs(p3 - (a * p1 + b * p2))) / sc_p), a=a, b=b, **extra)
                 return
+        # sources without net flux (a dipole, the zero field): the background must still reach every level
+        if not c["fp"]:
+            qd = np.zeros_like(q1)
+            qd.flat[0], qd.flat[-1] = 1.5, -1.5
+            for qz, nm in ((qd, "a dipole with zero net flux"), (np.zeros_like(q1), "the zero field")):
+                _, pz, fz = rs.solve3(qz, kw, srf_bg_conc=c1)
+                _, pz0, fz0 = rs.solve3(qz, kw, srf_bg_conc=0.0)
+                scz = max(float(np.max(np.abs(pz))), float(np.max(np.abs(pz0))), abs(c1))
+                if np.max(np.abs((pz - pz0) - c1)) > TOL[prec] * scz or not np.array_equal(fz, fz0):
+                    lev = [float(np.max(np.abs((pz[k] - pz0[k]) - c1))) for k in range(pz.shape[0])]
+                    _viol(chk, rs, c, "background", "with %s the background %s does not shift the concentration uniformly at every level (per-level deviation %s)" % (nm, c1, lev), **extra)
+                    return
         # background only offsets the concentration, never the flux
         _, p0, f0 = rs.solve3(q1, kw, srf_bg_conc=0.0)
         if not _cmp(chk, rs, c, "background", "flux", f1, f0, prec, "flux with background %s vs background 0" % c1, exact=True, **extra):
@@ -393,6 +409,35 @@ def replay_symmetry(chk, rs, c, variants):
                 return
 
 
+def replay_mirror(chk, rs, c, variants):
+    """reflection about the domain centre with any halo; exact when the retained spectrum of the axis has an odd count"""
+    if c["err"] != "none":
+        return
+    g = c["geom"]
+    rng = _rng(c)
+    ny, nx = c["ny"], c["nx"]
+    for prof_kind, prec, src_kind in variants:
+        if c["an"] and prof_kind != "const":
+            prof_kind = "const"
+        kw = rs.solver_args(c, prof_kind, prec)
+        q = rs.source(c, src_kind, rng, j=rng.integers(ny), i=rng.integers(nx))
+        extra = dict(profile=prof_kind, precision=prec, source=src_kind, q=q.tolist())
+        chk.case((_cfg_key(c), prof_kind, prec, src_kind))
+        _, p0, f0 = rs.solve3(q, kw)
+        if g["nlx"] % 2 == 1:
+            mp = (((nx - 1) * c["ax"] - c["xm"]) * rs.U, kw["meas_pt"][1]) if c["fp"] else (0.0, 0.0)
+            _, pm, fm = rs.solve3(q[:, ::-1].copy(), kw, profiles=rs.flip_profiles(kw["profiles"], su=-1.0), meas_pt=mp)
+            if not (_cmp(chk, rs, c, "mirror_centre_x", "flux", fm, f0[:, :, ::-1], prec, "problem reflected about the domain centre in x (halo %s)" % kw["halo"], **extra)
+                    and _cmp(chk, rs, c, "mirror_centre_x", "conc", pm, p0[:, :, ::-1], prec, "problem reflected about the domain centre in x (halo %s)" % kw["halo"], **extra)):
+                return
+        if g["nly"] % 2 == 1:
+            mp = (kw["meas_pt"][0], ((ny - 1) * c["ay"] - c["ym"]) * rs.U) if c["fp"] else (0.0, 0.0)
+            _, pm, fm = rs.solve3(q[::-1, :].copy(), kw, profiles=rs.flip_profiles(kw["profiles"], sv=-1.0), meas_pt=mp)
+            if not (_cmp(chk, rs, c, "mirror_centre_y", "flux", fm, f0[:, ::-1, :], prec, "problem reflected about the domain centre in y (halo %s)" % kw["halo"], **extra)
+                    and _cmp(chk, rs, c, "mirror_centre_y", "conc", pm, p0[:, ::-1, :], prec, "problem reflected about the domain centre in y (halo %s)" % kw["halo"], **extra)):
+                return
+
+
 # ------------------------------------------------------------------------ C10 levels
 
 
@@ -489,6 +534,7 @@ def replay_shape(chk, rs, c, variants):
                     return
 
 
+REPLAYS_BY_FAMILY = {"Mirror": replay_mirror, "AnalyticSym": replay_symmetry, "AnalyticCons": replay_conserve}
 REPLAYS = {"C02": replay_recip, "C03": replay_conserve, "C04": replay_linear, "C06": replay_translate, "C07": replay_symmetry, "C10": replay_levels, "C11": replay_shape}
 
 VARIANTS_QUICK = [("most_u", "double", "dense"), ("mostm", "double", "sparse"), ("aniso", "single", "smooth")]
@@ -538,6 +584,10 @@ def validate_traces(chk, prop, rs, tracefile, limit):
         chk.extra["trace_validation"]["first_rejected"] = res["rejected"][0]
 
 
+def main_and_finish(prop):
+    return main(prop).finish()
+
+
 def replay_scenario(prop, path):
     """Re-run one stored failing scenario."""
     from . import realsolver as rs
@@ -549,18 +599,15 @@ def replay_scenario(prop, path):
     if sc["kind"] == "prediction":
         check_prediction(chk, prop, rs, c, sc.get("profile", "most_u"))
     else:
-        REPLAYS[prop](chk, rs, c, [(sc.get("profile", "most_u"), sc.get("precision", "double"), sc.get("source", "dense"))])
+        fn = REPLAYS_BY_FAMILY.get(sc.get("family", ""), None)
+        if sc["kind"].startswith("mirror_centre"):
+            fn = replay_mirror
+        (fn or REPLAYS[prop])(chk, rs, c, [(sc.get("profile", "most_u"), sc.get("precision", "double"), sc.get("source", "dense"))])
     return chk.finish()
 
 
-def main(prop):
-    from . import realsolver as rs
-
-    chk = Check(prop)
-    fam = FAMILY[prop]
-    t = tier()
-    tracefile = os.path.join(common.scratch("trace_raw_" + prop), "events.ndjson")
-    os.environ["BLDFM_VERIF_TRACE"] = tracefile
+def run_family(chk, prop, rs, fam, replay, t, variants):
+    """TLC on one configuration family + replay of every emitted configuration"""
     cfgname = "MC_%s_%s" % (fam, t)
     if not os.path.exists(os.path.join(common.SPEC, cfgname + ".cfg")):
         cfgname = "MC_%s_quick" % fam
@@ -574,16 +621,9 @@ def main(prop):
         raise MachineryError("TLC emitted no final states for " + cfgname)
     for c in configs:
         c["lv"] = list(c["lv"])
-    chk.rule = (
-        "TLC enumerates every configuration of family %s within the bounds of %s.cfg and checks the invariants on the exact model; "
-        "each final state is replayed on the real solver (error/shape prediction + the property's identity, several profile/source/precision variants); "
-        "a case is a (configuration, profile set, precision, source) tuple on which the identity was evaluated" % (fam, cfgname)
-    )
-    variants = VARIANTS_QUICK if t == "quick" else VARIANTS_THOROUGH
-    replay = REPLAYS[prop]
     n_err = 0
     for c in configs:
-        ok, _ = check_prediction(chk, prop, rs, c)
+        ok, _ = check_prediction(chk, prop, rs, c, "const" if c["an"] else "most_u")
         if c["err"] != "none":
             n_err += 1
         if ok:
@@ -592,17 +632,45 @@ def main(prop):
             except Exception as e:
                 chk.violation(
                     "the model predicts a result for every call of the identity replay, the code raised %s: %s" % (type(e).__name__, str(e)[:120]),
-                    {"kind": "replay_exception", "config": c},
+                    {"kind": "replay_exception", "config": c, "family": fam},
                     klass=dict(rs.classify(c), check="replay_exception"),
                 )
+    chk.extra.setdefault("families", {})[fam] = {"config": cfgname, "configurations_from_tlc": len(configs), "predicted_error": n_err}
+    for c in configs[:: max(1, len(configs) // 3)][:3]:
+        chk.sample({"family": fam, "config": {k: c[k] for k in ("nx", "ny", "ax", "ay", "halo", "mx", "my", "xm", "ym", "fp", "an", "nz", "lv")}, "predicted": {"err": c["err"], "shape": c["shape"]}})
+    return len(configs)
+
+
+def main(prop, families=None):
+    from . import realsolver as rs
+
+    chk = Check(prop)
+    t = tier()
+    tracefile = os.path.join(common.scratch("trace_raw_" + prop), "events.ndjson")
+    os.environ["BLDFM_VERIF_TRACE"] = tracefile
+    if families is None:
+        families = [(FAMILY[prop], None)] + EXTRA_FAMILIES.get(prop, [])
+    if t == "thorough":
+        for neg in NEGS.get(prop, []):
+            rn = run_tlc("MCSolver", neg, timeout=1800, env={"JAVA_TOOL_OPTIONS": "-XX:+UseParallelGC -Xmx12g"})
+            chk.add_tlc(neg, rn, expect_violation=True)
+            if rn.ok:
+                raise MachineryError("negative control %s was not violated: the invariants do not see the deviation" % neg)
+    variants = VARIANTS_QUICK if t == "quick" else VARIANTS_THOROUGH
+    total = 0
+    for fam, key in families:
+        replay = REPLAYS[prop] if key is None else REPLAYS_BY_FAMILY[key]
+        total += run_family(chk, prop, rs, fam, replay, t, variants)
+    chk.rule = (
+        "TLC enumerates every configuration of the families %s within the bounds of their .cfg files and checks the invariants on the exact model; "
+        "each final state is replayed on the real solver (error/shape prediction + the property's identities, several profile/source/precision variants); "
+        "a case is a (configuration, profile set, precision, source) tuple on which an identity was evaluated" % [f for f, _ in families]
+    )
     validate_traces(chk, prop, rs, tracefile, limit=4000 if t == "quick" else 40000)
-    chk.extra["configurations_from_tlc"] = len(configs)
-    chk.extra["configurations_predicted_error"] = n_err
-    for c in configs[:: max(1, len(configs) // 4)][:4]:
-        chk.sample({"config": {k: c[k] for k in ("nx", "ny", "ax", "ay", "halo", "mx", "my", "xm", "ym", "fp", "an", "nz", "lv")}, "predicted": {"err": c["err"], "shape": c["shape"]}})
+    chk.extra["configurations_from_tlc"] = total
     chk.extra["exhaustive"] = True
     chk.assumptions += [
         "identities are checked exactly on the GF(5039^2) model for every configuration in the bounds; the model represents the code's stages one to one (bound by prediction replays and trace validation)",
         "floating-point identities are compared with relative tolerance 1e-10 (double) / 2e-4 (single) of the field scale",
     ]
-    return chk.finish()
+    return chk
